@@ -507,6 +507,10 @@ def source_facts(repo_src: pathlib.Path):
     facts["memoised_functions"] = memoised_functions(repo_src)
     facts["memo_keys_coarser_than_function"] = [m for m in facts["memoised_functions"] if m["coarse_key_params"]]
     facts["memo_keys_determine_result"] = not facts["memo_keys_coarser_than_function"]
+    MODELLED = {"nunavut/lang/_common.py:TokenEncoder.strop", "nunavut/lang/_language.py:LanguageClassLoader.load_language_class",
+                "nunavut/lang/cpp/__init__.py:_make_textwrap"}      # = ProcState.modelledMemoised (the Lean theorem is the check; this names it)
+    facts["memoised_not_modelled"] = [m["function"] for m in facts["memoised_functions"] if m["function"] not in MODELLED]
+    facts["memoised_functions_modelled"] = not facts["memoised_not_modelled"]
 
     # 13. override files are read in the order they are given (the later file wins; no re-ordering by path)
     fn = find_def("nunavut/lang/__init__.py", "add_config_files", "LanguageContextBuilder")
